@@ -33,7 +33,8 @@ def obs_value(v, py3, depth=0):
         b = v.value
         return [10, len(b)] + list(b)
     if isinstance(v, int):
-        return [6, int(v)]
+        from xdis.cross_types import LongTypeForPython3
+        return [17 if isinstance(v, LongTypeForPython3) else 6, int(v)]
     if isinstance(v, float):
         return [7, fbits(v)]
     if isinstance(v, complex):
